@@ -259,11 +259,26 @@ def _check_before_write(ctx, mod):
         facts = N.must_facts(graph, nz)
         subs = [n for n in graph.nodes if n.kind == 'stmt' and
                 isinstance(n.ast, ast.AugAssign)]
-        ok = bool(subs) and all(any(
-            f.key[0] == 'cmp' and f.key[1] == '!=' and sorted(
-                t for t, _c in f.key[2]) == sorted(["alloc['_id']",
-                                                    'old_id'])
-            for f in facts[n]) for n in subs)
+        # <loop variable>['_id'] != <third parameter>
+        oldp = func.params()[2]
+        ok = bool(subs)
+        for n in subs:
+            loop = K.enclosing_for(graph, n)
+            lvars = N.for_targets(loop) if loop is not None else set()
+            # the reservation loop is the outermost one
+            outer = loop
+            while outer is not None:
+                nxt = K.enclosing_for(graph, outer)
+                if nxt is None:
+                    break
+                outer = nxt
+                lvars = lvars | N.for_targets(outer)
+            ok = ok and any(
+                f.key[0] == 'cmp' and f.key[1] == '!=' and
+                len(f.key[2]) == 2 and oldp in [t for t, _c in f.key[2]] and
+                any(t == "%s['_id']" % v for t, _c in f.key[2]
+                    for v in lvars)
+                for f in facts[n])
         ctx.ob('C19.3', func, subs[0] if subs else None, ok,
                "%s skips the reservation whose _id is old_id" % fname,
                construct='%s excludes old_id' % fname)
@@ -411,11 +426,14 @@ def _trait_limits(ctx, mod, cap):
         for node in subs:
             mine = [f for f in N.raw_only(facts[node])
                     if var in f.mentions]
+            # the table tested is the table subtracted from
+            table = N.txt(node.ast.target).split('[')[0]
             ok = len(mine) == 1 and mine[0].key[0] == 'in' and \
                 mine[0].key[3] and mine[0].key[1] == var and \
-                mine[0].key[2] == 'free'
+                mine[0].key[2] == table
             ctx.ob('C19.5', func, node, ok and
-                   N.txt(node.ast.target).startswith('free[%s]' % var),
+                   N.txt(node.ast.target).startswith('%s[%s]' % (table,
+                                                                 var)),
                    'subtracted from that trait, under `trait in free` only')
 
 
